@@ -18,7 +18,7 @@ def enc(s):
 
 
 def mc_cfg(bug=None):
-    return ("SPECIFICATION Spec\nCONSTANTS\n  Bug = {%s}\n  MaxReq = 7\nINVARIANTS NoDoubleUnlock NoLockLeak NoBlockedHandler\n"
+    return ("SPECIFICATION Spec\nCONSTANTS\n  Bug = {%s}\n  MaxReq = 7\nINVARIANTS NoDoubleUnlock NoLockLeak NoBlockedHandler NoSelfDeadlock\n"
             "PROPERTIES StillServes\nCHECK_DEADLOCK FALSE\n" % (('"%s"' % bug) if bug else ""))
 
 
@@ -98,7 +98,7 @@ class Child:
     def scenario(self):
         ops = []
         if self.side == "controller":
-            if self.state == "attached":
+            if self.state in ("attached", "faulty"):
                 ops = [{"ev": "Register", "a": "a1"}, {"ev": "Register", "a": "a2"}, {"ev": "Start", "a": "a1"},
                        {"ev": "Add", "a": "a2"}, {"ev": "RebuildCopy", "a": "a2", "src": "a1"}, {"ev": "Verify", "a": "a2"},
                        {"ev": "Write"}, {"ev": "Snapshot", "name": "s1"}]
@@ -135,10 +135,18 @@ class Child:
             try:
                 s = socket.create_connection((self.host, self.port), timeout=0.2)
                 s.close()
+                self.arm()
                 return
             except OSError:
                 time.sleep(0.1)
         raise HarnessError("REST child did not come up")
+
+    def arm(self):
+        """state 'faulty': every management request the controller sends to replica a2 fails"""
+        if self.side == "controller" and self.state == "faulty":
+            st, _ = self.request("GET", "/verif/arm?node=a2&key=rest:*", None, timeout=5)
+            if st != 200:
+                raise HarnessError("could not arm the REST fault")
 
     def stop(self):
         if self.proc is not None:
@@ -198,7 +206,11 @@ def plan(side, state, rng, quick):
         reqs.append(dict(method=m, path=routes[0][1], cls="valid", body=b"", needs=False, action="", idok=True))
     rng.shuffle(reqs)
     if quick:
-        reqs = reqs[:70]
+        # every route with its valid body (these reach deepest), then a sample of the rest
+        valid = [r for r in reqs if r["cls"] == "valid" and r["idok"]]
+        rest = [r for r in reqs if not (r["cls"] == "valid" and r["idok"])]
+        reqs = valid + rest[:max(0, 80 - len(valid))]
+        rng.shuffle(reqs)
     # request sequences: the same signal / request several times in a row without a restart in between
     for (m, p, valid, needs, action) in routes:
         if action in ("start", "setlogging", "prepareremovedisk") or p.endswith("/v1/register") or "action=snapshot" in p:
@@ -262,7 +274,7 @@ def run(prop, tier, seed, replay=None):
     assumptions = [
         "the real routers (controller/rest, replica/rest) are served from a child process of the L1 harness brought into the state under test by a scenario prefix; /verif/trylock and /verif/state are harness endpoints in front of them",
         "byte-level body fuzzing is sampled: 6-8 body classes per route (valid, empty, truncated, wrong types, 2^63, 1 MiB, non-JSON, null) and 4 malformed id encodings",
-        "states: controller without replicas / with RF=2 RW replicas; replica closed, open, dirty, rebuilding",
+        "states: controller without replicas / with RF=2 RW replicas / the same with every management request to one replica failing; replica closed, open, dirty, rebuilding",
     ]
     try:
         mc_states = mc_trans = 0
@@ -274,13 +286,14 @@ def run(prop, tier, seed, replay=None):
             mc_states, mc_trans = r["distinct"], r["generated"]
             mc_runs.append(dict(distinct=r["distinct"], generated=r["generated"]))
             if not quick:
-                for bug, expect in [("doubleUnlock", "NoDoubleUnlock"), ("blockingSend", "NoBlockedHandler")]:
+                for bug, expect in [("doubleUnlock", "NoDoubleUnlock"), ("blockingSend", "NoBlockedHandler"),
+                                    ("relockOnError", "NoSelfDeadlock")]:
                     r = run_tlc_mc("RestApi", mc_cfg(bug), timeout=900)
                     if r["ok"] or not re.search(expect, r["violated"] or ""):
                         raise HarnessError("self-check: mutant %s not refuted" % bug)
                     mc_runs.append(dict(mutant=bug, refuted_by=r["violated"]))
-        targets = [("controller", "empty"), ("controller", "attached"), ("replica", "closed"), ("replica", "open"),
-                   ("replica", "dirty"), ("replica", "rebuilding")]
+        targets = [("controller", "empty"), ("controller", "attached"), ("controller", "faulty"), ("replica", "closed"),
+                   ("replica", "open"), ("replica", "dirty"), ("replica", "rebuilding")]
         events = []
         if replay is not None:
             rp = json.load(open(replay))
